@@ -14,6 +14,7 @@ package pmetric
 import (
 	"fmt"
 	"reflect"
+	"runtime/debug"
 	"sort"
 	"strconv"
 	"strings"
@@ -597,8 +598,17 @@ type vProg struct {
 	nontriv bool
 }
 
-func (g *vProg) snapshot() []string {
-	s := make([]string, len(g.roots))
+// reads every handle through the public getters; a panic in there is a panic of the IMPLEMENTATION's readers
+// on a state reached by public operations ("all readers keep working"): reported by the oracle, the program ends
+func (g *vProg) snapshot() (s []string) {
+	defer func() {
+		if r := recover(); r != nil {
+			g.oracle("reader-panic", fmt.Sprintf("reading handle values through the public getters panics: %v", r))
+			g.dead = true
+			s = make([]string, len(g.roots))
+		}
+	}()
+	s = make([]string, len(g.roots))
 	for h := range g.roots {
 		s[h] = vReadRow(g.types[h], g.roots[h])
 	}
@@ -669,6 +679,17 @@ type vScript struct {
 	to   int
 	tag  int // map scenario: forced kind of the value put (5 = nested map), 0 = random
 	h, c int // else: slice operation c (0 grow, 5 remove-if) on field 0 of handle h
+}
+
+// lookup finds the position with the same handle, path and row type in the current enumeration
+func (g *vProg) lookup(all []vPos, p vPos) *vPos {
+	pt := vPathTerm(p.p)
+	for i := range all {
+		if all[i].h == p.h && all[i].n == p.n && vPathTerm(all[i].p) == pt {
+			return &all[i]
+		}
+	}
+	return nil
 }
 
 type vHot struct {
@@ -802,8 +823,10 @@ func (g *vProg) plan() *vPlan {
 	if g.hot != nil {
 		hot := g.hot
 		g.hot = nil
-		if rng.Intn(10) < 8 {
-			_, hot.pos.node = vNav(g.types[hot.pos.h], g.roots[hot.pos.h], hot.pos.p)
+		// the remembered position may have disappeared in the meantime (other steps ran in between and removed or
+		// replaced an enclosing element): it is looked up in the current enumeration, never navigated blindly
+		if live := g.lookup(all, hot.pos); live != nil && rng.Intn(10) < 8 {
+			hot.pos = *live
 			g.hotMax, g.hotAvd = hot.maxLen, hot.avoid
 			pl := g.planCrossDir(hot.pos, hot.j, hot.f, all, true)
 			g.hotMax, g.hotAvd = -1, -1
@@ -847,7 +870,7 @@ func (g *vProg) planAt(pos vPos, all []vPos) *vPlan {
 			}
 			d := cands[rng.Intn(len(cands))]
 			if n != 20 && rng.Intn(3) == 0 {
-				return &vPlan{term: fmt.Sprintf("OMoveRow %d %s %d %s", h, pt, d.h, vPathTerm(d.p)), name: "move-row", writes: []int{h, d.h},
+				return &vPlan{term: fmt.Sprintf("OMoveRow %d %d %s %d %s", n, h, pt, d.h, vPathTerm(d.p)), name: "move-row", writes: []int{h, d.h},
 					run: func() { vCall(node, "MoveTo", d.node) },
 					post: func(before []string, panicked bool) {
 						if panicked {
@@ -1087,6 +1110,17 @@ func (g *vProg) planAt(pos vPos, all []vPos) *vPlan {
 		case c == 8 && isMap:
 			k := int64(rng.Intn(6) + 1)
 			m := w.(pcommon.Map)
+			if ml := m.Len(); ml > 1 && rng.Intn(4) > 0 { // an existing key that is not the last entry: the swap-with-last path
+				i, pick := 0, rng.Intn(ml-1)
+				m.Range(func(kk string, _ pcommon.Value) bool {
+					if i == pick {
+						k = vToZ(reflect.ValueOf(kk))
+						return false
+					}
+					i++
+					return true
+				})
+			}
 			return capObs(&vPlan{term: loc(fmt.Sprintf("LMapRemove %d %s", j, vZ(k))), name: "map-remove", writes: []int{h}, run: func() { m.Remove(vKey(k)); g.hot = &vHot{pos, j, f, -1, -1} }})
 		case c == 9 && isMap:
 			m := w.(pcommon.Map)
@@ -1463,6 +1497,9 @@ func (g *vProg) step() bool {
 		return false
 	}
 	before := g.snapshot()
+	if g.dead {
+		return false
+	}
 	expectPanic := false
 	if pl.name != "new" && pl.name != "readonly" {
 		if strings.HasPrefix(pl.name, "copy") {
@@ -1502,6 +1539,9 @@ func (g *vProg) step() bool {
 		term = strings.ReplaceAll(term, "%CAP%", strconv.Itoa(c))
 	}
 	after := g.snapshot()
+	if g.dead {
+		return false
+	}
 	code := 0
 	if panicked {
 		code = 1
@@ -1571,7 +1611,7 @@ func TestVerifC07(t *testing.T) {
 		if i%3 == 0 {
 			// scenario prefix: two slices of one type, both populated, the second one filtered; the
 			// generator then copies a longer slice into the filtered one (see plan: hot) and goes on at random
-			tt := []int{21, 22, 22, 23, 24, 24, 2, 3, 3, 33, 34}[rng.Intn(11)]
+			tt := []int{21, 22, 22, 23, 24, 24, 2, 2, 2, 3, 3, 33, 34}[rng.Intn(13)]
 			g.script = []vScript{{newT: tt}, {newT: tt}}
 			mapTag := 0
 			if tt == 2 && rng.Intn(3) > 0 {
@@ -1608,7 +1648,9 @@ func TestVerifC07(t *testing.T) {
 		func() {
 			defer func() {
 				if r := recover(); r != nil {
-					out.Oracle("harness-panic", g.term(), fmt.Sprint(r))
+					out.Stat("harness_internal_errors", 1)
+					t.Errorf("C07 harness internal error (not a finding about the implementation): %v\nprogram so far: %s\n%s", r, vList(g.ops), debug.Stack())
+					g.dead = true
 				}
 			}()
 			for s := 0; s < steps; s++ {
@@ -1618,7 +1660,7 @@ func TestVerifC07(t *testing.T) {
 			}
 		}()
 		// final observation: every handle
-		if len(g.ops) > 0 {
+		if len(g.ops) > 0 && !g.dead {
 			snap := g.snapshot()
 			vals := make([]string, len(snap))
 			for h, s := range snap {
